@@ -303,58 +303,66 @@ func ruleCorridor(w *World, r *Report) {
 	} else {
 		r.add("LAYERFIT", fn+" / candidates", w.Pos(getN.Pos()), Discharged, "candidates = N-layer box around the line IDs minus the line IDs")
 	}
-	// layer counts: max over line voxels of FitClearance(voxel, radius)
-	fit := callsTo(f, func(g *ssa.Function) bool {
-		return funcIs(g, modPath+"/transform", "FitClearanceAroundExtendedSpatialID")
-	})
-	okFit := false
-	why := "expected one FitClearanceAroundExtendedSpatialID call inside a loop over the line IDs"
-	if len(fit) == 1 {
-		fc := fit[0]
-		for _, sr := range findSliceRanges(f) {
-			if !isLine(sr.X) || !sr.blocks()[fc.Block()] {
-				continue
-			}
-			if !sr.isElem(resolve(fc.Call.Args[0])) || resolve(fc.Call.Args[1]) != ssa.Value(f.Params[2]) {
-				why = "FitClearanceAroundExtendedSpatialID is not called with (line voxel, radius)"
-				continue
-			}
-			if ok, _ := everyIterationPasses(sr, func(x *ssa.Call) bool { return x == fc }, nil); !ok {
-				why = "some line voxel is skipped by the clearance fit"
-				continue
-			}
-			okFit = true
-			for i, nm := range []string{"hLayers", "vLayers"} {
-				acc, ok := resolve(getN.Call.Args[1+i]).(*ssa.Phi)
-				res := extractOf(fc, i)
-				good := false
-				if ok && res != nil && acc.Block() == sr.Header {
-					good = runningMax(f, sr, acc, res)
+	// layer counts: max over line voxels of FitClearance(voxel, radius), inline or in a private helper
+	okFit, why := false, ""
+	hv := [2]ssa.Value{getN.Call.Args[1], getN.Call.Args[2]}
+	if ex0, ok := resolve(hv[0]).(*ssa.Extract); ok {
+		if hc, ok := ex0.Tuple.(*ssa.Call); ok && calleeOf(hc) != nil && w.InModule(calleeOf(hc)) && !funcIs(calleeOf(hc), modPath+"/transform", "FitClearanceAroundExtendedSpatialID") {
+			// helper form: H(line, radius) returning the two maxima
+			h := calleeOf(hc)
+			li, ri := -1, -1
+			for i, a := range hc.Call.Args {
+				if isLine(a) {
+					li = i
 				}
-				if !good {
-					okFit = false
-					why = nm + " passed to GetNspatialIdsAroundVoxcels is not the running maximum of the fitted " + nm + " over the line voxels"
+				if resolve(a) == ssa.Value(f.Params[2]) {
+					ri = i
 				}
 			}
+			ex1, ok1 := resolve(hv[1]).(*ssa.Extract)
+			if li < 0 || ri < 0 || !ok1 || ex1.Tuple != ssa.Value(hc) || ex0.Index != 0 || ex1.Index != 1 {
+				why = "the layer counts do not come from one helper call on (line IDs, radius)"
+			} else {
+				okFit, why = true, ""
+				n := 0
+				for _, ret := range returnsOf(h) {
+					if classifyReturn(h, ret) != retSuccess {
+						continue
+					}
+					n++
+					ok2, w2 := layerFitShape(h, func(v ssa.Value) bool { return resolve(v) == ssa.Value(h.Params[li]) }, h.Params[ri], [2]ssa.Value{ret.Results[0], ret.Results[1]})
+					if !ok2 {
+						okFit, why = false, "in helper "+w.FuncName(h)+": "+w2
+					}
+				}
+				if n == 0 {
+					okFit, why = false, "helper has no success return"
+				}
+			}
+		} else {
+			why = "the layer counts are not the running maxima of the clearance fit"
 		}
+	} else {
+		okFit, why = layerFitShape(f, isLine, f.Params[2], hv)
 	}
 	if okFit {
 		r.add("LAYERFIT", fn+" / layer counts", pos, Discharged, "hLayers, vLayers = max over all line voxels of FitClearanceAroundExtendedSpatialID(voxel, radius)")
 	} else {
 		r.add("LAYERFIT", fn+" / layer counts", pos, Violated, why)
 	}
-	// success returns
+	// success returns: Unique(Union(A, line)); A ranges over {candidates (skipped mode), measured additions}
 	n := 0
 	var measuredList ssa.Value
+	sawCand := false
 	for _, ret := range returnsOf(f) {
 		if classifyReturn(f, ret) != retSuccess {
 			continue
 		}
 		for _, leaf := range phiLeaves(resolve(ret.Results[0])) {
-			n++
-			key := fmt.Sprintf("%s / result variant#%d", fn, n)
 			u := unwrapUnique(w, leaf)
 			uc, ok := u.(*ssa.Call)
+			n++
+			key := fmt.Sprintf("%s / result variant#%d", fn, n)
 			if !ok || !calleeIs(uc, modPath+"/common", "Union") {
 				r.add("INCLUDES", key, w.Pos(ret.Pos()), Violated, "the result is not a union that contains the line IDs ("+describeValue(leaf)+")")
 				continue
@@ -369,18 +377,27 @@ func ruleCorridor(w *World, r *Report) {
 				r.add("INCLUDES", key, w.Pos(uc.Pos()), Violated, "the union does not include the line IDs")
 				continue
 			}
-			r.add("INCLUDES", key, w.Pos(uc.Pos()), Discharged, "result = Unique(Union(…, line IDs))")
-			if resolve(other) != ssa.Value(cand) {
-				measuredList = other
+			r.add("INCLUDES", key, w.Pos(uc.Pos()), Discharged, "result = Union(…, line IDs)")
+			for _, ol := range phiLeaves(resolve(other)) {
+				if resolve(ol) == ssa.Value(cand) {
+					sawCand = true
+				} else {
+					measuredList = ol
+				}
 			}
 		}
 	}
-	if n < 2 {
-		r.add("INCLUDES", fn+" / branches", pos, Undecided, fmt.Sprintf("expected a result variant for each value of the skip flag, found %d", n))
+	if n == 0 {
+		r.add("INCLUDES", fn+" / results", pos, Undecided, "no success return")
+	}
+	if !sawCand {
+		r.add("FILTER-SUBSET", fn+" / skipped mode", pos, Violated, "no result variant unions the unfiltered candidate list (skipped mode must return every candidate)")
+	} else {
+		r.add("FILTER-SUBSET", fn+" / skipped mode", pos, Discharged, "skipped mode returns candidates ∪ line IDs")
 	}
 	// FILTER-SUBSET on the measured list
 	if measuredList == nil {
-		r.add("FILTER-SUBSET", fn+" / measured list", pos, Undecided, "could not identify the list of measured additions")
+		r.add("FILTER-SUBSET", fn+" / measured list", pos, Violated, "no result variant is built from measured additions")
 		return
 	}
 	ai := appendChain(measuredList)
@@ -447,6 +464,39 @@ func ruleCorridor(w *World, r *Report) {
 	}
 }
 
+// layerFitShape: inside g, hv[0] and hv[1] are the running maxima, over a
+// loop visiting every element of the list, of the two results of
+// FitClearanceAroundExtendedSpatialID(element, radius).
+func layerFitShape(g *ssa.Function, isList func(ssa.Value) bool, radius ssa.Value, hv [2]ssa.Value) (bool, string) {
+	fit := callsTo(g, func(x *ssa.Function) bool {
+		return funcIs(x, modPath+"/transform", "FitClearanceAroundExtendedSpatialID")
+	})
+	if len(fit) != 1 {
+		return false, "expected one FitClearanceAroundExtendedSpatialID call inside a loop over the line IDs"
+	}
+	fc := fit[0]
+	for _, sr := range findSliceRanges(g) {
+		if !isList(sr.X) || !sr.blocks()[fc.Block()] {
+			continue
+		}
+		if !sr.isElem(resolve(fc.Call.Args[0])) || resolve(fc.Call.Args[1]) != radius {
+			return false, "FitClearanceAroundExtendedSpatialID is not called with (line voxel, radius)"
+		}
+		if ok, _ := everyIterationPasses(sr, func(x *ssa.Call) bool { return x == fc }, nil); !ok {
+			return false, "some line voxel is skipped by the clearance fit"
+		}
+		for i, nm := range []string{"hLayers", "vLayers"} {
+			acc, ok := resolve(hv[i]).(*ssa.Phi)
+			res := extractOf(fc, i)
+			if !ok || res == nil || acc.Block() != sr.Header || !runningMax(g, sr, acc, res) {
+				return false, nm + " is not the running maximum of the fitted " + nm + " over the line voxels"
+			}
+		}
+		return true, ""
+	}
+	return false, "the clearance fit is not inside a loop over the line IDs"
+}
+
 // runningMax: the loop-header phi acc (initial value 0) is updated on every
 // back edge to max(acc, res): under res > acc the new value is res, otherwise
 // it stays acc (enumeration of the three orderings over the loop body).
@@ -481,6 +531,14 @@ func runningMax(f *ssa.Function, sr *sliceRange, acc *ssa.Phi, res ssa.Value) bo
 				}
 			}
 			v := resolve(acc.Edges[i])
+			if mc, ok := v.(*ssa.Call); ok && builtinName(mc) == "max" && len(mc.Call.Args) == 2 {
+				a0, a1 := resolve(mc.Call.Args[0]), resolve(mc.Call.Args[1])
+				if (a0 == ssa.Value(acc) && a1 == resolve(res)) || (a1 == ssa.Value(acc) && a0 == resolve(res)) {
+					n++
+					continue
+				}
+				return false
+			}
 			if p, ok := v.(*ssa.Phi); ok && p != acc {
 				pv, uniq := phiValueUnder(f, p, orc)
 				if !uniq {
@@ -624,54 +682,89 @@ func latTruncShape(w *World, g *ssa.Function, st *ssa.Store) (bool, string) {
 		return false, "unexpected setter signature"
 	}
 	p := g.Params[1]
-	phi, ok := resolve(st.Val).(*ssa.Phi)
-	if !ok {
-		return false, "the stored latitude is not selected between a Floor form and a Ceil form by the sign of the input (" + describeValue(st.Val) + ")"
-	}
-	inf := math.Inf(1)
-	for _, reg := range []struct {
-		lo, hi float64
-		want   string
-	}{{1e-300, inf, "Floor"}, {-inf, -1e-300, "Ceil"}} {
-		c := &simCtx{e: scFor(w), f: g, sc: scenario{Kind: scRegion, Param: 1, Lo: reg.lo, Hi: reg.hi}}
-		v, uniq := phiValueUnder(g, phi, c.oracle)
-		if !uniq {
-			return false, "the rounding direction is not selected by the sign of the latitude parameter"
+	stored := resolve(st.Val)
+	how := ""
+	if roundForm(stored, p) == "Trunc" {
+		how = "math.Trunc(lat*1e10)/1e10 (cut toward zero for both signs)"
+	} else {
+		phi, ok := stored.(*ssa.Phi)
+		if !ok {
+			return false, "the stored latitude is neither math.Trunc(lat*K)/K nor a Floor form / Ceil form selected by the sign of the input (" + describeValue(st.Val) + ")"
 		}
-		if got := roundForm(v, p); got != reg.want {
-			sign := "positive"
-			if reg.want == "Ceil" {
-				sign = "negative"
+		inf := math.Inf(1)
+		for _, reg := range []struct {
+			lo, hi float64
+			want   string
+		}{{1e-300, inf, "Floor"}, {-inf, -1e-300, "Ceil"}} {
+			c := &simCtx{e: scFor(w), f: g, sc: scenario{Kind: scRegion, Param: 1, Lo: reg.lo, Hi: reg.hi}}
+			v, uniq := phiValueUnder(g, phi, c.oracle)
+			if !uniq {
+				return false, "the rounding direction is not selected by the sign of the latitude parameter"
 			}
-			return false, fmt.Sprintf("for %s latitudes the stored value is rounded with %q, %s(lat*1e10)/1e10 is required (cut toward zero)", sign, got, reg.want)
+			got := roundForm(v, p)
+			if got != reg.want && got != "Trunc" {
+				sign := "positive"
+				if reg.want == "Ceil" {
+					sign = "negative"
+				}
+				return false, fmt.Sprintf("for %s latitudes the stored value is rounded with %q, %s(lat*1e10)/1e10 is required (cut toward zero)", sign, got, reg.want)
+			}
 		}
+		how = "Floor for positive, Ceil for negative input"
 	}
-	// the limit test dominates the store
-	okGuard := false
+	// the limit test on the stored value dominates the store: |v| > L, or v > L and v < -L
+	const L = 85.0511287798
+	absGuard, hiGuard, loGuard := false, false, false
 	for _, blk := range g.Blocks {
-		_, fl, ifi := ifSuccs(blk)
+		t, fl, ifi := ifSuccs(blk)
 		if ifi == nil {
 			continue
 		}
 		c, ok := ifi.Cond.(*ssa.BinOp)
-		if !ok || c.Op != token.GTR {
+		if !ok {
 			continue
 		}
-		ac, ok := resolve(c.X).(*ssa.Call)
-		if !ok || !calleeIs(ac, "math", "Abs") || resolve(ac.Call.Args[0]) != ssa.Value(phi) {
+		pass := fl
+		op := c.Op
+		x, y := c.X, c.Y
+		if k, isK := constFloat(x); isK {
+			_ = k
+			x, y = y, x
+			op = flipOp(op)
+		}
+		k, isK := constFloat(y)
+		if !isK {
 			continue
 		}
-		if k, ok := constFloat(c.Y); !ok || math.Abs(k-85.0511287798) > 1e-12 {
+		switch op {
+		case token.GTR, token.LSS:
+		case token.LEQ:
+			op, pass = token.GTR, t
+		case token.GEQ:
+			op, pass = token.LSS, t
+		default:
 			continue
 		}
-		if fl == st.Block() || blockDominatedByEdge(g, blk, fl, st.Block()) {
-			okGuard = true
+		dom := pass == st.Block() || blockDominatedByEdge(g, blk, pass, st.Block())
+		if !dom {
+			continue
+		}
+		if ac, isCall := resolve(x).(*ssa.Call); isCall && calleeIs(ac, "math", "Abs") && resolve(ac.Call.Args[0]) == stored && op == token.GTR && math.Abs(k-L) < 1e-12 {
+			absGuard = true
+		}
+		if resolve(x) == stored {
+			if op == token.GTR && math.Abs(k-L) < 1e-12 {
+				hiGuard = true
+			}
+			if op == token.LSS && math.Abs(k+L) < 1e-12 {
+				loGuard = true
+			}
 		}
 	}
-	if !okGuard {
-		return false, "the store is not dominated by the passing side of |stored value| > 85.0511287798"
+	if !(absGuard || (hiGuard && loGuard)) {
+		return false, "the store is not dominated by the passing side of the limit test |stored value| <= 85.0511287798"
 	}
-	return true, "Floor for positive, Ceil for negative input; limit test on the stored value dominates the store"
+	return true, how + "; limit test on the stored value dominates the store"
 }
 
 // ---------------------------------------------------------------- C18 projection
@@ -941,6 +1034,22 @@ func ruleSetOps(w *World, r *Report) {
 				ok = false
 			}
 		}
+		if !ok && d.fnReturnsDistinct(f) {
+			// alternative: de-duplication of a list that holds every element of every argument
+			ok = true
+			for _, ret := range returnsOf(f) {
+				c, isCall := resolve(ret.Results[0]).(*ssa.Call)
+				if !isCall || len(c.Call.Args) != 1 || !d.fnReturnsDistinct(calleeOf(c)) {
+					ok = false
+					continue
+				}
+				for p := 0; p < np; p++ {
+					if !holdsAllOf(c.Call.Args[0], f.Params[p], 0) {
+						ok = false
+					}
+				}
+			}
+		}
 		if ok {
 			r.add("SETOP-SHAPE", fn, w.Pos(f.Pos()), Discharged, "every element of every argument is inserted; the result is the key set")
 		} else {
@@ -1079,6 +1188,50 @@ func ruleSetOps(w *World, r *Report) {
 	} else {
 		r.add("SETOP-SHAPE", "common.Include", "?", Unresolved, "function not found")
 	}
+}
+
+// holdsAllOf: the slice value contains every element of parameter p
+// (p itself, slices.Concat(..., p, ...), or append chains spreading p).
+func holdsAllOf(v ssa.Value, p *ssa.Parameter, depth int) bool {
+	v = resolve(v)
+	if depth > 5 {
+		return false
+	}
+	if v == ssa.Value(p) {
+		return true
+	}
+	c, ok := v.(*ssa.Call)
+	if !ok {
+		return false
+	}
+	if builtinName(c) == "append" {
+		if holdsAllOf(c.Call.Args[0], p, depth+1) {
+			return true
+		}
+		_, spread := appendedElems(c)
+		return spread != nil && holdsAllOf(spread, p, depth+1)
+	}
+	if g := calleeOf(c); g != nil && pkgOf(g) != nil && pkgOf(g).Path() == "slices" {
+		name := g.Name()
+		if o := g.Origin(); o != nil {
+			name = o.Name()
+		}
+		if name == "Concat" {
+			for _, a := range c.Call.Args {
+				if vals, ok := sliceLiteral(a); ok {
+					for _, e := range vals {
+						if holdsAllOf(e, p, depth+1) {
+							return true
+						}
+					}
+				}
+				if holdsAllOf(a, p, depth+1) {
+					return true
+				}
+			}
+		}
+	}
+	return false
 }
 
 func everyIterationPassesInstr(sr *sliceRange, pred func(ssa.Instruction) bool) (bool, int) {
